@@ -31,8 +31,7 @@ func (a *allVariableUsesDefinedVisitor) EnterDocument(operation, definition *ast
 }
 
 func (a *allVariableUsesDefinedVisitor) EnterArgument(ref int) {
-
-	if a.operation.Arguments[ref].Value.Kind != ast.ValueKindVariable {
+	if !a.operation.ValueContainsVariable(a.operation.Arguments[ref].Value) {
 		return // skip because no variable
 	}
 
@@ -43,15 +42,39 @@ func (a *allVariableUsesDefinedVisitor) EnterArgument(ref int) {
 		return
 	}
 
-	variableName := a.operation.VariableValueNameBytes(a.operation.Arguments[ref].Value.Ref)
+	a.checkValue(ref, a.operation.Arguments[ref].Value)
+}
 
-	for _, i := range a.operation.OperationDefinitions[a.Ancestors[0].Ref].VariableDefinitions.Refs {
-		if bytes.Equal(variableName, a.operation.VariableDefinitionNameBytes(i)) {
-			return // return OK because variable is defined
+// checkValue reports the first variable used in value that the operation does not define. A variable
+// can be the whole value of an argument or sit at any depth of a list or input object literal - also
+// of a literal given to a custom scalar, which no other rule looks into.
+func (a *allVariableUsesDefinedVisitor) checkValue(argument int, value ast.Value) (ok bool) {
+	switch value.Kind {
+	case ast.ValueKindVariable:
+		variableName := a.operation.VariableValueNameBytes(value.Ref)
+
+		for _, i := range a.operation.OperationDefinitions[a.Ancestors[0].Ref].VariableDefinitions.Refs {
+			if bytes.Equal(variableName, a.operation.VariableDefinitionNameBytes(i)) {
+				return true // OK because variable is defined
+			}
+		}
+
+		// at this point we're safe to say this variable was not defined on the root operation of this argument
+		argumentName := a.operation.ArgumentNameBytes(argument)
+		a.StopWithExternalErr(operationreport.ErrVariableNotDefinedOnArgument(variableName, argumentName))
+		return false
+	case ast.ValueKindList:
+		for _, ref := range a.operation.ListValues[value.Ref].Refs {
+			if !a.checkValue(argument, a.operation.Value(ref)) {
+				return false
+			}
+		}
+	case ast.ValueKindObject:
+		for _, ref := range a.operation.ObjectValues[value.Ref].Refs {
+			if !a.checkValue(argument, a.operation.ObjectFieldValue(ref)) {
+				return false
+			}
 		}
 	}
-
-	// at this point we're safe to say this variable was not defined on the root operation of this argument
-	argumentName := a.operation.ArgumentNameBytes(ref)
-	a.StopWithExternalErr(operationreport.ErrVariableNotDefinedOnArgument(variableName, argumentName))
+	return true
 }
